@@ -579,14 +579,20 @@ def chain_rules(ctx):
             if len(els) != 1:
                 r.undecided('%s:%s:else-shape' % (CRATE, a.key), pp.where(a.line), '%s: `else handling not of the form `if let Some(elsebody) = elsebody {..}`' % a.key)
                 continue
+            # the `else body is the LAST name bound from the else group (by the `if let` pattern itself or by a `let` inside it), whatever it is called
+            bound_ = [x_ for x_ in sx.pat_idents(els[0]['e']['c']['pat']) if x_]
+            for st_ in els[0]['e']['t']['stmts']:
+                if st_['k'] == 'let':
+                    bound_ += [x_ for x_ in sx.pat_idents(st_['pat']) if x_]
+            else_body_name = bound_[-1] if bound_ else 'elsebody'
             for hit in (False, True):
                 env = {flag: hit, 'cond': False}
                 sk = []
                 _eval_chain(els[0]['e']['t']['stmts'], env, sk)
-                r.inst('%s:else:%s' % (a.key, hit), {'arm': a.key, 'hit_before': hit, 'else_body_skipped': body_skipped(sk, 'elsebody')})
-                if body_skipped(sk, 'elsebody') != hit:
+                r.inst('%s:else:%s' % (a.key, hit), {'arm': a.key, 'hit_before': hit, 'else_body_skipped': body_skipped(sk, else_body_name)})
+                if body_skipped(sk, else_body_name) != hit:
                     r.fail('%s:%s:else-branch' % (CRATE, a.key), pp.where(els[0].get('l')),
-                           '%s: the `else body must be skipped iff an earlier branch was taken (hit=%s gives skipped=%s)' % (a.key, hit, body_skipped(sk, 'elsebody')))
+                           '%s: the `else body must be skipped iff an earlier branch was taken (hit=%s gives skipped=%s)' % (a.key, hit, body_skipped(sk, else_body_name)))
         except _Unm as u:
             r.undecided('%s:%s:chain-shape' % (CRATE, a.key), pp.where(a.line), '%s: statement `%s` is not modelled by the chain interpreter' % (a.key, u))
             continue
